@@ -27,6 +27,9 @@ pub enum KeyAlt {
   Permute(u8, u8),
   /// flip the same bit in two bytes `dist` apart (dist from {1,2,4,8,16})
   FlipTwo(u16, u8),
+  /// local protocols only: both keys are parsed from hexadecimal strings by the library; K has only the digits 0-5,
+  /// K' replaces the nibbles selected by the mask with a-f, spelled in the given letter case
+  HexSpelling(u64, bool),
 }
 
 #[derive(Clone, Debug, Serialize, Deserialize)]
@@ -152,6 +155,7 @@ fn alt_public(p: Proto, seed: &[u8; 32], alt: &KeyAlt) -> Option<Vec<u8>> {
       k[lo + i + dist] ^= m;
       k
     }
+    KeyAlt::HexSpelling(..) => return None, // handled by `hex_spelling`
     KeyAlt::RsaPool(i) => {
       if p != Proto::V1P {
         return None;
@@ -182,6 +186,9 @@ impl Sub for KeyBinding {
       Ok(t) => t,
       Err(_) => return Verdict::Discard,
     };
+    if let KeyAlt::HexSpelling(mask, upper) = &c.alt {
+      return hex_spelling(s, *mask, *upper, cl);
+    }
     let seed = s.seed();
     let alt = match alt_public(p, &seed, &c.alt) {
       Some(a) => a,
@@ -198,6 +205,7 @@ impl Sub for KeyBinding {
       KeyAlt::RsaPool(_) => "rsa-pool",
       KeyAlt::Permute(..) => "permuted-bytes",
       KeyAlt::FlipTwo(..) => "two-bit-flips",
+      KeyAlt::HexSpelling(..) => "hex-spelled-keys",
     }));
     let (f, a) = (s.footer.as_deref(), s.assertion());
     let describe = |o: &crate::rt::LayerOut| o.message();
@@ -255,6 +263,56 @@ impl Sub for KeyBinding {
   }
 }
 
+/// K and K' both come from `Key::<32>::try_from(&str)`; they differ as byte strings (per the `hex` crate, the
+/// oracle's decoder), so the token built under K must be refused under K'.
+fn hex_spelling(s: &TokSpec, mask: u64, upper: bool, cl: &mut Classes) -> Verdict {
+  let p = s.proto;
+  if !p.is_local() || mask == 0 {
+    return Verdict::Discard;
+  }
+  let nibbles: Vec<u8> = s.seed().iter().flat_map(|b| [(b >> 4) % 6, (b & 15) % 6]).collect();
+  let k_hex: String = nibbles.iter().map(|n| char::from_digit(*n as u32, 16).unwrap()).collect();
+  let k2_hex: String = nibbles
+    .iter()
+    .enumerate()
+    .map(|(i, n)| {
+      let v = if mask >> (i % 64) & 1 == 1 { n + 10 } else { *n };
+      let c = char::from_digit(v as u32, 16).unwrap();
+      if upper { c.to_ascii_uppercase() } else { c }
+    })
+    .collect();
+  let (kb, k2b) = (hex::decode(&k_hex).unwrap(), hex::decode(&k2_hex).unwrap());
+  if kb == k2b {
+    return Verdict::Discard;
+  }
+  let (km, km2) = match (KeyMaterial::local_from_hex(p, &k_hex), KeyMaterial::local_from_hex(p, &k2_hex)) {
+    (Ok(a), Ok(b)) => (a, b),
+    (Err(e), _) | (_, Err(e)) => vio!("C04:hex-key-rejected:{}", p.label(); "a well-formed 64-digit hexadecimal key was refused: {}", e.text),
+  };
+  let (lk, lk2) = (km.lib().unwrap(), km2.lib().unwrap());
+  cl.tag(format!("{}:{}", p.label(), s.layer.label()));
+  cl.tag(if upper { "alt:hex-spelled-keys(upper-case)" } else { "alt:hex-spelled-keys(lower-case)" });
+  let (f, a) = (s.footer.as_deref(), s.assertion());
+  let t = match crate::rt::layer_build(p, s.layer, &lk, &s.nonce, &s.msg, f, a) {
+    Ok(t) => t,
+    Err(_) => return Verdict::Discard,
+  };
+  let (r1, r2) = parse_twice(p, s.layer, (&t, &lk, f, a), (&t, &lk2, f, a));
+  match r1 {
+    Ok(o) if o.message().as_deref() == Some(s.msg.as_str()) => {}
+    _ => return Verdict::Discard,
+  }
+  cl.nontrivial(true);
+  match r2 {
+    Err(e) => {
+      cl.tag(format!("rejected:{}", e.variant));
+      Verdict::Pass
+    }
+    Ok(o) => vio!("C04:accepted-under-other-key:{}:{}", p.label(), s.layer.label();
+      "token produced under the key parsed from {:?} was accepted under the key parsed from {:?}; returned {:?}", k_hex, k2_hex, o.message()),
+  }
+}
+
 fn alt_strategy(p: Proto) -> BoxedStrategy<KeyAlt> {
   prop_oneof![
     6 => gen::bytes32().prop_map(KeyAlt::OtherSeed),
@@ -266,6 +324,7 @@ fn alt_strategy(p: Proto) -> BoxedStrategy<KeyAlt> {
     if p == Proto::V1P { 4 } else { 0 } => any::<u8>().prop_map(KeyAlt::RsaPool),
     3 => (0u8..5, any::<u8>()).prop_map(|(k, w)| KeyAlt::Permute(k, w)),
     3 => (any::<u16>(), 0u8..5).prop_map(|(b, d)| KeyAlt::FlipTwo(b, d)),
+    if p.is_local() { 3 } else { 0 } => (prop_oneof![any::<u64>(), Just(u64::MAX), (0u32..64).prop_map(|i| 1u64 << i)], any::<bool>()).prop_map(|(m, u)| KeyAlt::HexSpelling(m, u)),
   ]
   .boxed()
 }
